@@ -194,7 +194,7 @@ def oracle(parts, outcome, obs):
     return fails
 
 
-CLAIM_PENDING = {
+CLAIM = {
     "text": "Theorems (Coq, closed): each BDS 4,0 / 5,0 / 6,0 field decoder equals the Doc 9871 layout on its status, sign and magnitude bits for every 112-bit frame (two's complement, floors); is_bds_4_0/5_0/6_0 return a register only if all its status bits are set, its value fields non-zero, its reserved bits zero and the plausibility limits hold, and do return it whenever they hold; with no -R and a recorded capability below 4 a DF20/21 reply changes no Comm-B derived field; without -R a register that BDS 1,7 has not advertised changes none of its fields. Tied to the code with registers synthesised from physical values (full ranges, both signs, limits +/-1 LSB), single status bits cleared, reserved bits set, random MB fields, all short orders of DF11 / BDS 1,7 / data replies, +/-R +/-U, DF20 and DF21, with an independent Doc 9871 decoder as oracle.",
     "note": "The precedence/inference order (1,7 > 4,0 > 5,0 > 6,0) is covered by the correspondence and the oracle; the theorems are per stage.",
     "technique": "Coq proof: RangeSpec rewriting of every field decoder against a Doc 9871 specification, validity/completeness of the register tests, gating via footprints; differential runs with synthesised registers + independent oracle",
